@@ -676,7 +676,9 @@ func main() {
 			}
 		}
 		// a redirect target whose writes fail (/dev/full): whatever happens to the redirect, the step's own log must hold
-		// what the step printed; output below one buffer, so that everything is still buffered at teardown
+		// what the step printed: output below one buffer (everything still buffered at teardown) and above it (the
+		// redirect's writes fail while the step prints; the child must not die of SIGPIPE, so a failing stderr: target
+		// gets at most a pipeful)
 		nfull := 10
 		if tier == "thorough" {
 			nfull = 96
@@ -686,6 +688,7 @@ func main() {
 				Retries: []int{0, 0, 1, 2}[rng.Below(4)], Emit: []string{"both", "out", "out", "err"}[rng.Below(4)],
 				Size: []int{1, 100, 3000}[rng.Below(3)], Blk: []int{0, 1000}[rng.Below(2)], Done: rng.Below(2)}
 			if c.Full == 1 {
+				c.Size = []int{1, 100, 3000, 3000, 4097, 5000, 70000}[rng.Below(7)]
 				c.Stdout, c.Stderr = true, rng.Chance(1, 4)
 			} else {
 				c.Stderr, c.Stdout = true, !c.Output || rng.Bool()
